@@ -100,19 +100,25 @@ def _free_row(rng, case_bounds, mask, outside_ok):
     return row
 
 
-def _script(rng, bounds, mask, outside_ok, allow_batch, max_len=6):
+def _script(rng, bounds, mask, outside_ok, allow_batch, max_len=6, nested=False):
     reqs = []
     for _ in range(rng.randint(1, max_len)):
         kind = rng.choice(["f", "f", "g", "fg", "fg", "batch"] if allow_batch else ["f", "f", "g", "fg", "fg"])
         if kind == "batch":
-            rows = [_free_row(rng, bounds, mask, outside_ok) for _ in range(rng.randint(1, 3))]
+            # with a nested plan only a one-row batch is accepted (more rows: RuntimeError, ends the run)
+            nrows = (1 if rng.random() < 0.85 else 2) if nested else rng.randint(1, 3)
+            rows = [_free_row(rng, bounds, mask, outside_ok) for _ in range(nrows)]
             reqs.append({"x": rows, "batch": True, "f": True, "g": False})
         else:
             reqs.append({"x": [_free_row(rng, bounds, mask, outside_ok)], "batch": False, "f": "f" in kind, "g": "g" in kind})
-    if reqs and rng.random() < 0.3:      # gradient at the point of the previous function request (cached functions)
+    if reqs and rng.random() < 0.45:     # gradient at the point of an earlier function request (cached functions)
         k = rng.randrange(len(reqs))
-        if not reqs[k]["batch"] and reqs[k]["f"]:
-            reqs.insert(k + 1, {"x": reqs[k]["x"], "batch": False, "f": False, "g": True})
+        if reqs[k]["f"] and not reqs[k]["g"]:
+            # after a batch: the evaluator caches the FIRST row of the batch
+            row = reqs[k]["x"][0] if rng.random() < 0.7 else reqs[k]["x"][-1]
+            reqs.insert(k + 1, {"x": [row], "batch": False, "f": False, "g": True})
+            if rng.random() < 0.3:       # ... and once more (the cache survives a cached gradient)
+                reqs.insert(k + 2, {"x": [row], "batch": False, "f": False, "g": True})
     return reqs
 
 
@@ -168,13 +174,24 @@ def gen_one(rng, mask_hint=-1, force=None):
     gs, sconfs = _samplers(rng, V, R, P, mask, scripted_samplers)
     nc = rng.choice([0, 0, 1, 2]) if opt_kind == "scripted" else 0
     nobj = rng.choice([1, 1, 2])
+    # the step is started from an explicit `variables=` vector (inside the bounds) that differs from the configured
+    # initial values, also on the fixed positions; never together with a VariableScaler (known finding
+    # C11:explicit-step-variables)
+    start = None
+    if scaler is None and force.get("start", rng.random() < 0.4):
+        start = [_inside(rng, lb, ub) for lb, ub in bounds]
     case = {"V": V, "R": R, "P": P, "x0": x0, "lbs": [b[0] for b in bounds], "ubs": [b[1] for b in bounds], "mask": mask,
             "bts": bts, "mags": mags, "gs": gs, "samplers": sconfs, "nc": nc, "nobj": nobj, "scaler": scaler,
-            "seed": rng.randint(1, 10 ** 6), "nested": None}
+            "seed": rng.randint(1, 10 ** 6), "nested": None, "start": start,
+            # the same step object has already run once (from the configured initial values) on the same plan
+            "warmup": force.get("warmup", rng.random() < 0.2),
+            # the scripted optimizer overwrites, in place, the arrays it was handed (initial values, returned functions
+            # and gradients) and the request arrays it passed, as an optimizer using them as work space does
+            "scribble": rng.random() < 0.4}
     if opt_kind == "scripted":
         case["opt"] = {"kind": "scripted",
                        "script": _script(rng, bounds, eff_mask, outside_ok=not nested, allow_batch=True,
-                                         max_len=4 if nested else 6)}
+                                         max_len=4 if nested else 6, nested=bool(nested))}
     else:
         case["opt"] = {"kind": "scipy", "method": method, "maxiter": rng.randint(1, 2)}
     if nested:
@@ -210,7 +227,7 @@ def _config_dict(case, mask, script, tag, gs, sconfs):
     V = case["V"]
     opt = case["opt"]
     if tag == "inner" or opt["kind"] == "scripted":
-        optimizer = {"method": "verif/scripted", "options": {"tag": tag, "script": script}}
+        optimizer = {"method": "verif/scripted", "options": {"tag": tag, "script": script, "scribble": bool(case.get("scribble"))}}
     else:
         m = opt["method"]
         optimizer = {"method": "verifscipy/" + ("differential_evolution" if m == "de-parallel" else m),
@@ -294,17 +311,31 @@ def run_impl(case):  # noqa: C901, PLR0915
                 stack.pop()
         return wrapped
 
+    def _scribble(a):
+        """overwrite an array the optimizer owns (or was handed) in place; read-only arrays are left alone"""
+        try:
+            if isinstance(a, np.ndarray) and a.size and a.flags.writeable:
+                a[...] = 1000.0 + np.arange(a.size, dtype=np.float64).reshape(a.shape)
+        except ValueError:
+            pass
+
     class ScriptedOptimizer(Optimizer):
         def __init__(self, config, cb):
             self._rid = new_run(config, config.optimizer.options["tag"])
             self._script = config.optimizer.options["script"]
+            self._scribble = bool(config.optimizer.options.get("scribble"))
             self._cb = wrap_callback(self._rid, cb)
 
         def start(self, initial_values):
             runs[self._rid]["seen_start"] = fl(initial_values)
+            scribble = self._scribble
+            if scribble:
+                _scribble(initial_values)
             for req in self._script:
                 x = np.array(req["x"] if req["batch"] else req["x"][0], dtype=np.float64)
-                self._cb(x, return_functions=req["f"], return_gradients=req["g"])
+                f, g = self._cb(x, return_functions=req["f"], return_gradients=req["g"])
+                if scribble:
+                    _scribble(x), _scribble(f), _scribble(g)
 
         @property
         def allow_nan(self):
@@ -398,13 +429,14 @@ def run_impl(case):  # noqa: C901, PLR0915
             if isinstance(ro, FunctionResults):
                 rec["res"].append({"kind": "F", "vars": fl(ro.evaluations.variables), "uvars": fl(ru.evaluations.variables)})
             elif isinstance(ro, GradientResults):
-                g = ro.gradients
-                grads = []
-                if g is not None:
-                    grads = [fl(g.weighted_objective)] + rows(g.objectives) + ([] if g.constraints is None else rows(g.constraints))
+                def grows(g):
+                    if g is None:
+                        return []
+                    return [fl(g.weighted_objective)] + rows(g.objectives) + ([] if g.constraints is None else rows(g.constraints))
                 rec["res"].append({"kind": "G", "vars": fl(ro.evaluations.variables), "uvars": fl(ru.evaluations.variables),
                                    "pert": rows(ro.evaluations.perturbed_variables),
-                                   "upert": rows(ru.evaluations.perturbed_variables), "grads": grads})
+                                   "upert": rows(ru.evaluations.perturbed_variables),
+                                   "grads": grows(ro.gradients), "ugrads": grows(ru.gradients)})
 
     pm = PluginManager()
     pm.add_plugin("optimizer", "verif", ScriptedOptimizerPlugin())
@@ -463,6 +495,15 @@ def run_impl(case):  # noqa: C901, PLR0915
                 kw["transforms"] = transforms
             if inner_plan is not None:
                 kw["nested_optimization"] = inner_plan
+            if case.get("warmup"):
+                # the same step object runs once from the configured initial values; nothing of it is recorded
+                try:
+                    outer.run_step(step, **kw)
+                except Exception:  # noqa: BLE001 - only the second run is the observation
+                    pass
+                del runs[:], stack[:]
+            if case.get("start") is not None:
+                kw["variables"] = np.array(case["start"], dtype=np.float64)
             exit_code = outer.run_step(step, **kw)
         except Exception as e:  # noqa: BLE001 - the exception class is the observation
             exc = type(e).__name__
@@ -519,7 +560,7 @@ def _run_term(case, obs, k):
     scripted_o = (not outer) or case["opt"]["kind"] == "scripted"
     exact = scripted_s and scripted_o
     if outer:
-        start = _to_opt(case, case["x0"])
+        start = _to_opt(case, case["x0"]) if case.get("start") is None else list(case["start"])
         sc = case["scaler"] or {"scales": [1.0] * V, "offsets": [0.0] * V}
     else:
         start = _spawner(runs, k)["nested_in"]
@@ -537,9 +578,11 @@ def _run_term(case, obs, k):
         res = []
         for d in cb["res"]:
             if d["kind"] == "F":
-                res.append(f"(Build_resrec false {cq.qs(d['vars'])} [] [])")
+                res.append(f"(Build_resrec false {cq.qs(d['vars'])} [] [] {cq.qs(d['uvars'])} [] [])")
             else:
-                res.append(f"(Build_resrec true {cq.qs(d['vars'])} {_rows(d['pert'])} {_rows(d['grads'])})")
+                res.append("(Build_resrec true {} {} {} {} {} {})".format(
+                    cq.qs(d["vars"]), _rows(d["pert"]), _rows(d["grads"]), cq.qs(d["uvars"]), _rows(d["upert"]),
+                    _rows(d.get("ugrads", d["grads"]))))
         cbs.append("(Build_cbrec {} {} {} {} {} {} {} {} {} {} {} {})".format(
             _rows(cb["x"]), cq.b(cb["batch"]), cq.b(cb["f"]), cq.b(cb["g"]), nested,
             cq.opt(cb["nested_in"], cq.qs), cq.opt(cb["inner"], cq.nat), _rows(evals), cq.lst(res),
@@ -568,7 +611,9 @@ def oracle(case, obs):  # noqa: C901, PLR0912
         mask = run["mask"]
         fixed = [i for i in range(V) if mask is not None and not mask[i]]
         nfree = V - len(fixed)
-        if k == 0:
+        if k == 0 and case.get("start") is not None:
+            cur_user = cur_opt = list(case["start"])
+        elif k == 0:
             cur_user, cur_opt = list(case["x0"]), _to_opt(case, case["x0"])
         else:
             sp = _spawner(runs, k)
@@ -580,6 +625,8 @@ def oracle(case, obs):  # noqa: C901, PLR0912
         def moved(vec, ref):
             return [i for i in fixed if vec[i] != ref[i]]
 
+        if run["seen_start"] is not None and (len(run["seen_start"]) != V or run["seen_start"] != cur_opt):
+            return {"clause": "optimizer-started-from-another-vector", "detail": {**where, "got": run["seen_start"], "want": cur_opt}}
         if run["x0"] is not None and len(run["x0"]) != nfree:
             return {"clause": "algorithm-sees-only-free-variables", "detail": {**where, "x0": run["x0"]}}
         if run["x0"] is not None and run["x0"] != [v for v, i in zip(cur_opt, range(V)) if i not in fixed]:
@@ -604,7 +651,7 @@ def oracle(case, obs):  # noqa: C901, PLR0912
                     for p, up in zip(d["pert"], d["upert"]):
                         if moved(p, cur_opt) or moved(up, cur_user):
                             return {"clause": "fixed-variable-perturbed", "detail": {**w, "perturbed": up, "want": cur_user}}
-                    for g in d["grads"]:
+                    for g in d["grads"] + d.get("ugrads", []):
                         if len(g) != V or any(g[i] != 0.0 for i in fixed):
                             return {"clause": "gradient-nonzero-on-fixed-variable", "detail": {**w, "gradient": g}}
             if cb["out"] == "ok":
@@ -627,6 +674,12 @@ def features(case, obs):
     ncb = sum(len(r["cbs"]) for r in obs["runs"])
     return {"V": case["V"], "mask": kind, "optimizer": o["kind"] if o["kind"] == "scripted" else o["method"],
             "nested": case["nested"] is not None, "scaler": case["scaler"] is not None,
+            "start": "explicit" if case.get("start") is not None else "configured", "warmup": bool(case.get("warmup")),
+            "scribble": bool(case.get("scribble")) and o["kind"] == "scripted",
+            "explicit_start_batch": case.get("start") is not None and (
+                o.get("method") == "de-parallel" or any(r["batch"] for r in o.get("script", []))),
+            "cached_gradient": any((not r["f"]) and r["g"] and i > 0 and o["script"][i - 1]["f"] and not o["script"][i - 1]["g"]
+                                   for i, r in enumerate(o.get("script", []))),
             "samplers": len(case["samplers"]), "sampler_kind": "scripted" if case["samplers"][0]["kind"] == "scripted" else "builtin",
             "gs": case["gs"] is not None, "nc": case["nc"], "runs": min(len(obs["runs"]), 5), "callbacks": min(ncb // 4 * 4, 40),
             "exc": obs["exc"], "exit": obs["exit"]}
@@ -651,6 +704,10 @@ def shrink(case):
             yield {**case, "nested": {**case["nested"], "script": s[:k] + s[k + 1:]}}
     if case["scaler"] is not None:
         yield {**case, "scaler": None}
+    if case.get("warmup"):
+        yield {**case, "warmup": False}
+    if case.get("scribble"):
+        yield {**case, "scribble": False}
     if case["nc"]:
         yield {**case, "nc": 0}
     if case["nobj"] > 1:
